@@ -1,8 +1,11 @@
+mod actionflow;
 mod astmodel;
+mod g1;
 mod grammar;
 mod report;
 mod rules;
 mod srcmodel;
+mod tables;
 
 use std::path::PathBuf;
 
@@ -21,6 +24,7 @@ fn main() {
             let tier = std::env::var("VERIF_TIER").ok().filter(|t| t == "quick" || t == "thorough").or(args.get(3).cloned()).unwrap_or_else(|| "quick".into());
             let mut cx = report::Ctx::new(&id, &tier, repo, verif);
             match id.as_str() {
+                "C01" => rules::c01::run(&mut cx),
                 "C12" => rules::c12::run(&mut cx),
                 _ => {
                     eprintln!("no check for {}", id);
